@@ -3,7 +3,14 @@ import core
 import proc_common as P
 
 def run(ctx):
+    # X9: the premise of C13 ("a panic there terminates the whole guardian process") as theorems about node.go's supervisor configuration
+    st = core.run_extract(ctx, ["servicetree"])
+    tree_cov = dict(ctx.cov.get("extractors") or {})
     rows = P.pipeline(ctx, "C13")
+    ctx.cov.setdefault("extractors", {}).update(tree_cov)
+    if not ctx.replay:
+        import c18
+        c18.x9_run(ctx, st, pid="C13", only="panic")     # a panic in a supervised test service under node.go's options, in a child process
     if rows is None:
         return
     ctx.rule = ("generated + scripted histories over the processor's inputs (chain messages incl. empty/nil/long payloads and extreme timestamps, injections before/after the first set, "
@@ -12,4 +19,6 @@ def run(ctx):
     ctx.cov["panics_observed"] = sum(1 for h in rows for s in h["steps"] if s.get("panic"))
     ctx.assumptions = P.COMMON_ASSUMPTIONS + [
         "guardianSigner.Sign never fails (ECDSA signing of a 32-byte digest with a valid key); proto.Marshal of the node's own messages never fails; both would panic and are trusted library behaviour",
-        "the Run loop's select glue is exercised by the harness's TestVerifProcRun subset only (thorough tier)"]
+        "the Run loop's select glue is exercised by the harness's TestVerifProcRun subset only (thorough tier)",
+        "X9: 'an unrecovered panic in any goroutine terminates the process' is the model's rule (Go semantics); the supervisor option and the absence of a recover around the "
+        "services are read from node.go / the services' packages by text (name-based reachability inside the package)"]
